@@ -35,9 +35,10 @@ VARIABLES P,      \* the program (constant along a behaviour)
           cnt,    \* number of logged action invocations = user-state counter
           nones,  \* how many None items have been produced
           script, \* decisions taken so far (0-based menu indices)
+          guide,  \* decisions offered to the actions (a prefix may be fixed; beyond it all are explored)
           hist    \* observable events so far
 
-vars == <<P, inp, pos, ms, rs, fin, cnt, nones, script, hist>>
+vars == <<P, inp, pos, ms, rs, fin, cnt, nones, script, guide, hist>>
 
 R == INSTANCE Regex WITH Env <- P.env, Builtins <- P.bi
 
@@ -142,11 +143,17 @@ InvEv(at) == [k |-> "I", at |-> Loc(at)]
 (***************************************************************************)
 (* Actions.                                                                *)
 (***************************************************************************)
+\* Inputs: every string over sigma up to length k, or the listed inputs; a listed input may come
+\* with a guide: the decisions its first actions take (the i-th logged action takes decision
+\* guide[i] modulo the size of its menu, as the harness' actions do), all others are explored.
 Init ==
   /\ LET ps == Progs IN P \in {ps[i] : i \in 1..Len(ps)}
-  /\ inp \in (IF P.inputs # <<>>
-              THEN {P.inputs[i] : i \in 1..Len(P.inputs)}
-              ELSE UNION {[1..m -> {P.sigma[i] : i \in 1..Len(P.sigma)}] : m \in 0..P.k})
+  /\ IF P.inputs # <<>>
+     THEN \E i \in 1..Len(P.inputs) :
+            /\ inp = P.inputs[i]
+            /\ guide = IF "guides" \in DOMAIN P /\ i <= Len(P.guides) THEN P.guides[i] ELSE <<>>
+     ELSE /\ inp \in UNION {[1..m -> {P.sigma[i] : i \in 1..Len(P.sigma)}] : m \in 0..P.k}
+          /\ guide = <<>>
   /\ pos = 0 /\ ms = 0 /\ rs = 1 /\ fin = FALSE /\ cnt = 0 /\ nones = 0
   /\ script = <<>> /\ hist = <<>>
 
@@ -155,14 +162,14 @@ DoNone ==
   /\ fin /\ nones < 4
   /\ nones' = nones + 1
   /\ hist' = Append(hist, NoneEv)
-  /\ UNCHANGED <<P, inp, pos, ms, rs, fin, cnt, script>>
+  /\ UNCHANGED <<P, inp, pos, ms, rs, fin, cnt, script, guide>>
 
 \* Init rule set, at a lexeme boundary, input exhausted, no `$` rule applies: the stream ends.
 DoEnd(a) ==
   /\ ~fin
   /\ a.best = NoBest /\ rs = 1 /\ pos = N
   /\ fin' = TRUE
-  /\ UNCHANGED <<P, inp, pos, ms, rs, cnt, nones, script, hist>>
+  /\ UNCHANGED <<P, inp, pos, ms, rs, cnt, nones, script, guide, hist>>
 
 \* No rule of the active rule set matches here: InvalidToken at the start of the current match;
 \* resume after the examined characters, in Init, with an empty match (C07, C08).
@@ -171,7 +178,7 @@ DoFail(a) ==
   /\ a.best = NoBest /\ ~(rs = 1 /\ pos = N)
   /\ hist' = Append(hist, InvEv(ms))
   /\ pos' = a.stop /\ ms' = a.stop /\ rs' = 1 /\ fin' = a.hitEOI
-  /\ UNCHANGED <<P, inp, cnt, nones, script>>
+  /\ UNCHANGED <<P, inp, cnt, nones, script, guide>>
 
 \* The selected rule's action runs (once), sees the accumulated match and the next character,
 \* and takes one of the decisions of its menu (C01, C03, C10).
@@ -194,6 +201,7 @@ DoAct(a, ch) ==
                      [] d.ret = 2 -> <<[k |-> "C", r |-> r - 1, q |-> cnt, at |-> Loc(ms1)]>>
                      [] OTHER     -> <<>>
      IN  /\ ch \in 1..Len(rule.menu)
+         /\ (logged /\ Len(script) < Len(guide)) => ch - 1 = guide[Len(script) + 1] % Len(rule.menu)
          /\ hist' = hist \o (IF logged THEN <<actEv>> ELSE <<>>) \o item
          /\ script' = IF logged THEN Append(script, ch - 1) ELSE script
          /\ cnt' = IF logged THEN cnt + 1 ELSE cnt
@@ -201,7 +209,7 @@ DoAct(a, ch) ==
          /\ ms' = IF d.ret = 0 THEN ms1 ELSE newpos
          /\ rs' = IF d.sw >= 0 THEN d.sw + 1 ELSE rs
          /\ fin' = (j = N + 1)
-  /\ UNCHANGED <<P, inp, nones>>
+  /\ UNCHANGED <<P, inp, nones, guide>>
 
 MaxMenu == 8
 
